@@ -3,9 +3,10 @@ import json, os, subprocess, sys, time, tempfile, shutil, hashlib, re, random
 
 VERIF = os.path.dirname(os.path.dirname(os.path.abspath(__file__)))
 REPO = os.environ.get("VERIF_REPO", "/repo")
-BUILD = os.path.join(VERIF, ".build")
+COV = bool(os.environ.get("VERIF_COV"))      # tools/coverage.sh: measure which repository lines the checks reach
+BUILD = os.environ.get("VERIF_BUILD") or os.path.join(VERIF, ".build-cov" if COV else ".build")   # VERIF_BUILD/VERIF_EVID: scratch runs (tools/try_mutant_wt.sh)
 SPEC = os.path.join(VERIF, "spec")
-EVID = os.path.join(VERIF, "evidence")
+EVID = os.environ.get("VERIF_EVID") or os.path.join(VERIF, "evidence")
 REPLAY = os.path.join(EVID, "replay")
 NCPU = os.cpu_count() or 4
 
@@ -32,7 +33,7 @@ def build(variant="plain"):
     os.makedirs(BUILD, exist_ok=True)
     t = time.time()
     p = subprocess.run(["make", "-s", "-j%d" % NCPU, "-C", os.path.join(VERIF, "harness"),
-                        "VARIANT=" + variant, "REPO=" + REPO],
+                        "VARIANT=" + variant, "REPO=" + REPO, "BUILDROOT=" + BUILD] + (["VERIF_COV=1"] if COV else []),
                        stdout=subprocess.PIPE, stderr=subprocess.STDOUT, text=True)
     if p.returncode != 0:
         raise Broken("harness build failed (%s):\n%s" % (variant, p.stdout[-3000:]))
